@@ -68,6 +68,17 @@ func (ef *ErrFlow) CallImpure(info *types.Info, call *ast.CallExpr) bool {
 		if tv, ok := info.Types[call.Fun]; ok && tv.IsType() {
 			return false
 		}
+		// a local that only ever holds named functions or method values
+		// (checks selected up front): impure iff one of them is
+		if cands := ef.P.LocalFuncValues(info, call.Fun); len(cands) > 0 {
+			for _, cf := range cands {
+				f := ef.P.FuncOf(cf)
+				if f == nil || !ef.Pure(f) {
+					return true
+				}
+			}
+			return false
+		}
 		if id, ok := ast.Unparen(call.Fun).(*ast.Ident); ok {
 			if _, isBuiltin := info.Uses[id].(*types.Builtin); isBuiltin {
 				return false
@@ -814,4 +825,91 @@ func onlyErrorReturnsFollow(g *Graph, info *types.Info, v *V) bool {
 		}
 	}
 	return !g.ReachFrom(v, false, AvoidVs(rets...))[g.Exit]
+}
+
+// LocalFuncValues resolves a call through a local variable of function type:
+// when every assignment to the variable (in the function that declares it)
+// is a named function or a method value, these are returned; otherwise nil.
+func (p *Program) LocalFuncValues(info *types.Info, fun ast.Expr) []*types.Func {
+	id, ok := ast.Unparen(fun).(*ast.Ident)
+	if !ok {
+		return nil
+	}
+	obj, ok := info.ObjectOf(id).(*types.Var)
+	if !ok || obj.IsField() || obj.Pkg() == nil || obj.Parent() == obj.Pkg().Scope() {
+		return nil
+	}
+	if _, isSig := obj.Type().Underlying().(*types.Signature); !isSig {
+		return nil
+	}
+	pkg := p.Pkgs[obj.Pkg().Path()]
+	if pkg == nil {
+		return nil
+	}
+	var decl *ast.FuncDecl
+	for _, f := range pkg.Syntax {
+		if f.Pos() > obj.Pos() || obj.Pos() > f.End() {
+			continue
+		}
+		for _, d := range f.Decls {
+			if fd, ok := d.(*ast.FuncDecl); ok && fd.Body != nil && fd.Pos() <= obj.Pos() && obj.Pos() <= fd.End() {
+				decl = fd
+			}
+		}
+	}
+	if decl == nil {
+		return nil
+	}
+	var out []*types.Func
+	okAll := true
+	value := func(e ast.Expr) {
+		switch x := ast.Unparen(e).(type) {
+		case *ast.Ident:
+			if f, ok := info.ObjectOf(x).(*types.Func); ok {
+				out = append(out, f)
+				return
+			}
+		case *ast.SelectorExpr:
+			if f, ok := info.ObjectOf(x.Sel).(*types.Func); ok {
+				out = append(out, f)
+				return
+			}
+		}
+		okAll = false
+	}
+	ast.Inspect(decl.Body, func(n ast.Node) bool {
+		switch x := n.(type) {
+		case *ast.AssignStmt:
+			for i, l := range x.Lhs {
+				if lid, ok := ast.Unparen(l).(*ast.Ident); ok && info.ObjectOf(lid) == obj {
+					if len(x.Lhs) == len(x.Rhs) {
+						value(x.Rhs[i])
+					} else {
+						okAll = false
+					}
+				}
+			}
+		case *ast.ValueSpec:
+			for i, nm := range x.Names {
+				if info.ObjectOf(nm) == obj {
+					if len(x.Values) == len(x.Names) {
+						value(x.Values[i])
+					} else if len(x.Values) != 0 {
+						okAll = false
+					}
+				}
+			}
+		case *ast.UnaryExpr:
+			if x.Op == token.AND {
+				if lid, ok := ast.Unparen(x.X).(*ast.Ident); ok && info.ObjectOf(lid) == obj {
+					okAll = false
+				}
+			}
+		}
+		return true
+	})
+	if !okAll {
+		return nil
+	}
+	return out
 }
